@@ -238,7 +238,8 @@ Definition grpc_v (w : world) (c : core) (n : Z) : bool := enabled w c (grpc_lev
 Inductive guard :=
 | GBelowDPanic      (* sugar.go log/logln: if lvl < DPanicLevel && !Core().Enabled(lvl) { return }
                        zapgrpc printer.Println after the fix *)
-| GAlways.          (* zapgrpc Infoln/Warningln/Errorln (and printer.Println before the fix): if Enabled(lvl) {...} *)
+| GAlways.          (* zapgrpc Infoln/Warningln/Errorln (and printer.Println before the fix), zapio
+                       Writer.Write: nothing happens unless Enabled(lvl) *)
 Definition guard_pass (w : world) (c : core) (l : level) (g : guard) : bool :=
   match g with
   | GBelowDPanic => negb (l <? DPanicL) || enabled w c l
@@ -253,7 +254,8 @@ Inductive fam :=
 | FSugarf        (* ..f *)
 | FSugarw        (* ..w *)
 | FSugarln       (* ..ln: s.logln *)
-| FZapio         (* zapio.Writer.log: Log.Check(w.Level, line) then Write *)
+| FZapio         (* zapio.Writer.Write: returns early unless Log.Core().Enabled(w.Level), then
+                    Writer.log: Log.Check(w.Level, line) then Write *)
 | FStdLog        (* NewStdLog/NewStdLogAt/RedirectStdLog*: loggerWriter -> Logger.<Level> *)
 | FGrpcDirect    (* zapgrpc Info/Infof/Warning/Warningf/Error/Errorf: delegate.<X> *)
 | FGrpcLn        (* zapgrpc Infoln/Warningln/Errorln: levelEnabler guard, then delegate.<X> *)
@@ -262,7 +264,8 @@ Inductive fam :=
 
 Definition guards_of (f : fam) : list guard :=
   match f with
-  | FLogger | FCheck | FZapio | FStdLog => []
+  | FLogger | FCheck | FStdLog => []
+  | FZapio => [GAlways]
   | FSugar | FSugarf | FSugarw | FSugarln | FGrpcDirect | FGrpcPrint => [GBelowDPanic]
   | FGrpcLn => [GAlways; GBelowDPanic]
   | FGrpcPrintln => [GBelowDPanic; GBelowDPanic]     (* fix: was [GAlways; GBelowDPanic] *)
